@@ -160,6 +160,28 @@ class Sym:
         pp = tuple(x for x in self._path(p) if x is not None)
         return self.local(p[0], pp + tuple(path), depth + 1)
 
+    def _promoted_int(self, text):
+        """`&1` is a promoted constant: body `_1 = const 1; _0 = &_1` -> 1"""
+        import re
+        m = re.search(r"promoted\[(\d+)\]$", text)
+        prom = getattr(self.fn, "promoted", None) or []
+        if not m or int(m.group(1)) >= len(prom):
+            return None
+        body = prom[int(m.group(1))]
+        vals = {}
+        ret = None
+        for st in body:
+            if st[0] != "A" or len(st[1]) != 1:
+                return None
+            rv = st[2]
+            if rv["k"] == "Use" and rv["o"][0][0] == "k" and isinstance(rv["o"][0][1].get("v"), int):
+                vals[st[1][0]] = rv["o"][0][1]["v"]
+            elif rv["k"] == "Ref" and st[1][0] == 0 and len(rv["p"]) == 1:
+                ret = rv["p"][0]
+            else:
+                return None
+        return vals.get(ret)
+
     def operand(self, op, path=(), depth=0):
         if op[0] in ("c", "m"):
             return self.place(op[1], path, depth)
@@ -168,6 +190,9 @@ class Sym:
             if "v" in c and isinstance(c["v"], int):
                 return Poly.const(c["v"])
             if "uneval" in c:
+                v = self._promoted_int(c.get("s", ""))
+                if v is not None:
+                    return Poly.const(v)
                 return Poly.atom(("const", self.fn.duid(c["uneval"]), c.get("s", "")))
             return Poly.atom(("const", c.get("s", "?")))
         return Poly.atom(("op", "operand"))
